@@ -41,6 +41,12 @@ def run(ctx):
     # same strain, different reference strain consecutively
     cases.sort(key=lambda st: (st["case"]["law"], st["case"]["E"], st["case"]["G"], st["case"]["K"], st["case"]["K0"], st["case"]["G0"]))
     laws = {}
+    # all law objects are created before the first evaluation and live side by side (state shared between instances would show)
+    for st in cases:
+        c = st["case"]
+        key = (c["law"], tuple(c["E"]), tuple(c["F"]))
+        if key not in laws:
+            laws[key] = getattr(mm, c["law"])(np.array(c["E"], dtype=float), np.array(c["F"], dtype=float))
     n = 0
     samples = []
     dual_checked = {}
